@@ -15,7 +15,7 @@ var (
 	wdDeadline time.Time
 	wdWhat     string
 	wdOnce     sync.Once
-	wdCap      = 120 * time.Second
+	wdCap      = 900 * time.Second // generous: a run takes well under a second, but the machine may be heavily loaded
 )
 
 func armWatchdog(what string) {
